@@ -1,0 +1,29 @@
+//go:build verif
+
+package otto
+
+// VerifStep, when non-nil, is invoked at every interrupt polling point of the
+// interpreter (kind 1: statement, 2: expression, 3: empty-bodied for loop)
+// just before the Interrupt channel is polled. Verification builds only.
+var VerifStep func(o *Otto, kind int)
+
+func (rt *runtime) verifStep(kind int) {
+	if VerifStep != nil {
+		VerifStep(rt.otto, kind)
+	}
+}
+
+// VerifScopeDepth reports the number of execution contexts currently on the
+// runtime's scope chain (1 at rest: the global context).
+func VerifScopeDepth(o *Otto) int {
+	n := 0
+	for s := o.runtime.scope; s != nil; s = s.outer {
+		n++
+	}
+	return n
+}
+
+// VerifLabelCount reports the number of pending statement labels.
+func VerifLabelCount(o *Otto) int {
+	return len(o.runtime.labels)
+}
